@@ -43,6 +43,78 @@ def run(ctx, rep):
     from . import c20
     c20.format_rounding_rule(f, rep, 'C09.7')
     c15.ext_cursor_rule(f, rep, 'C09.8')
+    tail_field_rule(f, rep, 'C09.9')
+    c20.l1_count_rule(f, rep, 'C09.10', 'C09.11')
+
+
+MIN_V3_HEADER = 104
+
+
+def tail_field_rule(f, rep, rid):
+    """A version 3 header may be 104 bytes long (what qemu 1.1 - 5.0 wrote); the bytes behind it belong to the first header
+    extension.  The raw header is deserialised as a fixed-size struct, so its fields at byte offset >= 104 hold extension
+    bytes for such an image.  Rule: in the parser no branch that leaves with an error may depend on such a field unless a
+    test of header_length dominates it.  (For version 2 the fields behind byte 72 are reset before any use: C09.1.)"""
+    from ..interp import Program
+    from ..guard import Deps
+    from .c14 import FROM_BUF
+    rep.rule(rid, 'no rejecting branch of the header parser depends on a raw header field at byte offset >= 104 without a dominating '
+                  'test of header_length (a 104-byte version 3 header is valid; those bytes are extension data)')
+    raw = f.adts.get('meta::header::Qcow2RawHeader')
+    if raw is None:
+        raise AnalysisError('Qcow2RawHeader not found')
+    off = 0
+    tail = []
+    for fl in raw['variants'][0]['fields']:
+        w = {'u8': 1, 'u16': 2, 'u32': 4, 'u64': 8}.get(f.types[fl['t']].get('p'))
+        if w is None:
+            raise AnalysisError('Qcow2RawHeader field %s has an unexpected type' % fl['n'])
+        if off >= MIN_V3_HEADER:
+            tail.append(fl['n'])
+        off += w
+    rep.floor('raw header fields behind the minimal version 3 header', len(tail), 1)
+    b = f.body(FROM_BUF)
+    if b is None:
+        raise AnalysisError('from_buf not found')
+    P = Program(f)
+    dp = Deps(P, b)
+    succ = b.succ()
+    reach = {}
+
+    def region(s):
+        if s not in reach:
+            r, st = set(), [s]
+            while st:
+                x = st.pop()
+                if x not in r:
+                    r.add(x)
+                    st.extend(succ[x])
+            reach[s] = r
+        return reach[s]
+    sw = [(bi, b.blocks[bi]['term']) for bi in sorted(b.reachable()) if b.blocks[bi]['term']['k'] == 'switch']
+    deps = {bi: dp.of_operand(t['d'], (bi, 10 ** 6)) for bi, t in sw}
+    n = 0
+    for bi, t in sw:
+        used = sorted(x[1] for x in deps[bi] if x[0] == 'field' and x[1] in tail)
+        if not used:
+            continue
+        # a rejecting branch: one successor's region is small and private (the error return), the others go on
+        regs = [region(s_) for s_ in succ[bi]]
+        rej = [r for i, r in enumerate(regs) if len(r) <= 25 and all(len(o) > len(r) for j, o in enumerate(regs) if j != i)]
+        if not rej:
+            continue
+        n += 1
+        guard = [g for g, _t in sw if g != bi and b.dominates(g, bi) and ('field', 'header_length') in deps[g]]
+        ok = bool(guard)
+        rep.ob(rid, 'test of %s at %s' % ('/'.join(used), b.where(bi)), ok,
+               'dominated by a test of header_length at %s' % b.where(guard[0]) if ok else 'no test of header_length dominates it')
+        if not ok:
+            rep.violation(rid, '%s:%s' % (rid, '+'.join(used)), b.where(bi),
+                          'from_buf rejects (or accepts) an image depending on the raw field %s, which lies at byte offset >= %d, '
+                          'without looking at header_length: for a valid version 3 image with a %d-byte header these bytes are the '
+                          'start of the first header extension, so the image is refused or misread depending on extension data' % (
+                              '/'.join(used), MIN_V3_HEADER, MIN_V3_HEADER))
+    rep.ob(rid, 'rejecting tests on tail fields (%s)' % ', '.join(tail), True, '%d such test(s) in from_buf' % n)
 
 
 def flag_bits(f, ev, pred):
